@@ -105,7 +105,16 @@ def run_case(case):
     from vmon.simkit import omit
     dec = wishbone.Decoder(**omit(rng, "wishbone", addr_width=aw, data_width=dw, granularity=gran,
                                   features=spell_features(rng, dfeat), alignment=case["al"]))
+    replaced_map = 0
+    if rng.random() < 0.1:
+        # the decoder's own memory map is replaced (through the public setter) by an equivalent one the project built
+        # itself, before any subordinate is added
+        dec.bus.memory_map = MemoryMap(addr_width=map_aw, data_width=gran, alignment=case["al"])
+        replaced_map = 1
     subs = []
+    accepted = []        # (window map, range add() returned)
+    owner = {}           # window map -> (interface, sparse, features); an interface may own two windows (alias)
+    aliases = 0
     port_subs = 0
     for i in range(case["nsubs"]):
         sparse = rng.random() < 0.3 and gbits > 0
@@ -139,10 +148,24 @@ def run_case(case):
         if rng.random() < 0.35:
             kw["addr"] = rng.randrange(1 << map_aw) // (1 << s_map_aw) * (1 << s_map_aw)
         try:
-            dec.add(sub, name=None if rng.random() < 0.5 else f"w{i}", sparse=sparse, **kw)
+            granted = dec.add(sub, name=None if rng.random() < 0.5 else f"w{i}", sparse=sparse, **kw)
         except ValueError:
             continue
         subs.append((sub, sparse, sfeat))
+        accepted.append((id(sub.memory_map), tuple(granted)))
+        owner[id(sub.memory_map)] = (sub, sparse, sfeat)
+        if rng.random() < 0.08:
+            # an alias window: the same interface is given a second memory map and added again (a ROM visible at two
+            # addresses); both windows select it
+            first_map, alias_map = sub.memory_map, MemoryMap(addr_width=s_map_aw, data_width=s_gran)
+            sub.memory_map = alias_map
+            try:
+                granted2 = dec.add(sub, sparse=sparse)
+                accepted.append((id(alias_map), tuple(granted2)))
+                owner[id(alias_map)] = (sub, sparse, sfeat)
+                aliases += 1
+            except ValueError:
+                sub.memory_map = first_map
         if rng.random() < 0.1:
             try:
                 dec.add(sub, sparse=sparse)      # the same subordinate again: refused, and nothing may change
@@ -184,7 +207,7 @@ def run_case(case):
             except ValueError:
                 pass
         xbar = other
-    by_map = {id(s.memory_map): (s, sp, sf) for s, sp, sf in subs}
+    by_map = owner
     wins = []
     for w, _n, (s, e, ratio) in dec.bus.memory_map.windows():
         sub, sparse, sfeat = by_map[id(w)]
@@ -196,6 +219,13 @@ def run_case(case):
                      "w": (s >> gbits, true_end >> gbits, e >> gbits)})
     bus = dec.bus
     mon = Mon()
+    # what add() granted is what the decoder's memory map reports (the hardware below is judged against that map)
+    reported = {(id(w_), (s_, e_, r_)) for w_, _n, (s_, e_, r_) in dec.bus.memory_map.windows()}
+    mon.run(lambda: mon.ok("add_result_reported", all(a in reported for a in accepted),
+                           f"ranges returned by accepted add() calls {[a[1] for a in accepted if a not in reported][:3]} are not "
+                           f"windows of the decoder's memory map"))
+    if mon.violations:
+        return mon.result(summary={"aw": aw, "dw": dw, "stim": case["stim_seed"]})
     nwords = 1 << aw
     edges = sorted({a for w in wins for a in (w["w"][0], w["w"][0] - 1, w["w"][1] - 1, w["w"][1], w["w"][2] - 1, w["w"][2])
                     if 0 <= a < nwords})
@@ -234,8 +264,12 @@ def run_case(case):
                     sel, zone = j, "padding"
             # subordinate responses: only the selected one (sees cyc) may respond
             resp = []
+            sel_sub = wins[sel]["sub"] if sel is not None else None
             for j, w in enumerate(wins):
                 sub = w["sub"]
+                if j != sel and sub is sel_sub:
+                    resp.append(None)         # alias window of the selected interface: its signals are set once, below
+                    continue
                 r = {"ack": 0, "dat_r": bits(rng, len(sub.dat_r))}
                 active = (j == sel and zone == "span" and req["cyc"])
                 if active:
@@ -250,6 +284,8 @@ def run_case(case):
             n_cyc = 0
             for j, w in enumerate(wins):
                 sub = w["sub"]
+                if j != sel and sub is sel_sub:
+                    continue                  # the other window of the selected interface
                 got_cyc = getv(ctx, sub.cyc)
                 n_cyc += got_cyc
                 if j == sel and zone == "padding":
@@ -304,6 +340,8 @@ def run_case(case):
     mon.count("designs_with_crossbar_twin", int(xbar is not None))
     mon.count("cycles", mon.cycle + 1)
     mon.count("subordinates_given_as_component_ports", port_subs)
+    mon.count("decoders_whose_own_map_was_replaced", replaced_map)
+    mon.count("alias_windows", aliases)
     mon.bin("n_windows", len(wins))
     mon.bin("decoder_features", tuple(sorted(dfeat)))
     for w in wins:
